@@ -115,6 +115,8 @@ class Scenario:
                          for k, _, _, h in handles if k != 'imap']
                 res.setdefault('term_before_after', []).append((before, after))
                 self.snapshot('after_terminate')
+            elif op == 'grow':
+                pool.grow(int(arg or 1))
             elif op == 'tjob':
                 k, fn, a, h = handles[int(arg)]
                 pid = h._worker_pid
@@ -155,8 +157,11 @@ class Scenario:
         finally:
             sched.choices = saved
             vt.daemon = True
-        self.res['supervisor_late'] = dict(done=vt.state == 'done',
-                                           maintained=len(calls))
+        w = vos.world()
+        self.res['supervisor_late'] = dict(
+            done=vt.state == 'done', maintained=len(calls),
+            alive_after={pid: p.state for pid, p in w.procs.items()
+                         if not p.is_main and p.state == 'running'})
 
     def snapshot(self, tag):
         w = vos.world()
@@ -349,12 +354,15 @@ def c08_oracle(sc):
         if alive:
             return ('terminate() returned but worker processes are alive: %r'
                     % (alive,))
-        running = [n for n, a in snap.get('threads', {}).items()
-                   if a and n != 'supervisor']
+        running = [n for n, a in snap.get('threads', {}).items() if a]
         if running:
             return ('terminate() returned but pool threads still run: %r'
                     % (running,))
         late = r.get('supervisor_late')
+        if late and late.get('alive_after'):
+            return ('a worker process is alive one second after terminate() '
+                    'returned (started by the supervisor afterwards?): %r'
+                    % (late['alive_after'],))
         if late and (not late['done'] or late['maintained']):
             return ('the supervisor thread outlived terminate() by more than '
                     'one period or kept supervising: %r' % (late,))
